@@ -76,7 +76,7 @@ def do_replay(spec, path):
     if not line:
         print("no case-line in replay file (an obligation/no-input replay names the theorem instead)")
         return 2
-    C.coq_make()
+    C.coq_make(targets=spec.coq_targets())
     C.build_checker()
     ok, out = C.build_harness()
     if not ok:
